@@ -191,7 +191,9 @@ def exec_set_raw(sess: Session, op: dict, step: int) -> Effect:
                      f'{type(node).__name__}.{m.name} = {type(donor).__name__ if donor is not None else None}')
     if m.kind in ('raw_required', 'raw_optional', 'unordered') and _group_of(node, m.name) != 'txn':
         got = getattr(node, m.name)
-        if got is not donor:
+        # an unordered slot is "the first component of that type": after a removal the next component of
+        # the type (there only after raw component edits) legitimately takes its place
+        if got is not donor and not (m.kind == 'unordered' and donor is None and got is not cur):
             eff.v('C03', 'readback', step, f'{type(node).__name__}.{m.name} does not return the node just assigned')
     return eff
 
